@@ -109,6 +109,12 @@ TARGETS = [
     # itself) out; `_get_date_from_string` (dateutil or the fallback parser) is a parameter
     ('cardutil/iso8583.py', '_pytype_to_string', {'field_data': 'anyval', 'bit_config': 'cfg'}, 'anyval',
      {'extern': {'_get_date_from_string': ([('field_data', 'anyval')], 'dt', True)}}),
+    # the one-shot blocker and unblocker: plain functions over an input and an output file object (the content still to be
+    # read, the content written so far); the translation returns what was written
+    ('cardutil/mciipm.py', 'block_1014', {}, 'bytes',
+     {'files': ('input_data', 'output_data'), 'params': [('self_in', 'bytes'), ('self_out', 'bytes')]}),
+    ('cardutil/mciipm.py', 'unblock_1014', {}, 'bytes',
+     {'files': ('input_data', 'output_data'), 'params': [('self_in', 'bytes'), ('self_out', 'bytes')]}),
     # the column slicing of the parameter reader (read-only method: expanded flag, decoder, table index, layouts are parameters)
     ('cardutil/mciipm.py', 'IpmParamReader._get_param_field', {'record': 'bytes', 'field': 'str'}, 'str', {'readonly': True}),
     # FRAGMENTS of functions whose other statements call the cipher library: the decimalisation at the end of
@@ -1520,6 +1526,33 @@ class SelfRewriter(ast.NodeTransformer):
         return self.generic_visit(node)
 
 
+class FileParams(ast.NodeTransformer):
+    """a plain function over an input and an output file object: `src.read(n)` takes the next bytes of `self_in`,
+    `dst.write(e)` appends to `self_out`, `seek(0)` on either is dropped (the translation returns the content written)"""
+
+    def __init__(self, src, dst):
+        self.src, self.dst = src, dst
+
+    def visit_Call(self, node):
+        f = node.func
+        if isinstance(f, ast.Attribute) and f.attr == 'read' and isinstance(f.value, ast.Name) and f.value.id == self.src \
+                and len(node.args) == 1 and not node.keywords:
+            return ast.copy_location(ast.Call(func=ast.Name(id='__source_read__', ctx=ast.Load()),
+                                              args=[self.visit(node.args[0])], keywords=[]), node)
+        return self.generic_visit(node)
+
+    def visit_Expr(self, node):
+        c = node.value
+        if isinstance(c, ast.Call) and isinstance(c.func, ast.Attribute) and isinstance(c.func.value, ast.Name) \
+                and c.func.value.id in (self.src, self.dst):
+            if c.func.attr == 'seek' and len(c.args) == 1 and isinstance(c.args[0], ast.Constant) and c.args[0].value == 0:
+                return None
+            if c.func.attr == 'write' and c.func.value.id == self.dst and len(c.args) == 1:
+                return ast.Assign(targets=[ast.Name(id='self_out', ctx=ast.Store())],
+                                  value=ast.BinOp(ast.Name(id='self_out', ctx=ast.Load()), ast.Add(), self.visit(c.args[0])))
+        return self.generic_visit(node)
+
+
 class ClsReturn(ast.NodeTransformer):
     """in a class method, `return cls(x, ...)` builds the new object from x: rendered as `return x`"""
 
@@ -1565,6 +1598,11 @@ def translate_function(mod_ast, fdef, ptypes, ret, known, cls=None, opts=None):
     body = fdef.body
     if 'fragment' in opts:
         body = fragment_of([st for st in body], opts['fragment'])
+    if 'files' in opts:
+        src, dst = opts['files']
+        body = [FileParams(src, dst).visit(st) for st in __import__('copy').deepcopy(body)]
+        body = [st for st in body if st is not None] + [ast.Return(value=ast.Name(id='self_out', ctx=ast.Load()))]
+        ast.fix_missing_locations(ast.Module(body=body, type_ignores=[]))
     readonly = cls is not None and (opts.get('classmethod') or opts.get('readonly') or SELF_STATE.get(cls, {}).get('readonly'))
     if readonly:
         if opts.get('classmethod'):
